@@ -8,7 +8,8 @@ META = dict(
          "and every choice of the set of failing destinations for each of the first 3 (thorough 4) serviceTxPkts passes (the handler double raises a transient errno for "
          "every send to a failing destination), followed by failure-free passes: in each pass the datagrams handed to the double must be, per destination, exactly the "
          "pending packets in queue order if the destination is not failing and nothing otherwise; hence every packet is sent exactly once, in order, and no destination "
-         "blocks another. A second family drives serviceTxPktsOnce with every fail/succeed pattern per call and requires exactly-once delivery in per-destination queue order.",
+         "blocks another. A second family fails individual send calls (every mask over the sends of two passes) and checks exactly-once, per-destination order and "
+         "that destinations without a failed send are not held back. A third family drives serviceTxPktsOnce with every fail/succeed pattern per call and requires exactly-once delivery in per-destination queue order.",
     note="The UDP socket is a double at the handler interface (send(data, ha)); transient errnos are the nine the stack itself treats as transient, all exercised. "
          "Non-transient errors (re-raised by the stack) and the receive side are outside the statement.",
 )
@@ -21,6 +22,7 @@ QUICK = core.TIER != "thorough"
 MAXN = 5 if QUICK else 6
 PASSES = 3 if QUICK else 4
 ONCE_CALLS = 5 if QUICK else 7
+ATT_MAXN = 4 if QUICK else 5       # per-send failure family: queue length bound
 FULLN = 3 if QUICK else 5          # all assignments up to this length, beyond it one per renaming class
 DESTS = "ABC"
 HA = {"A": ("10.0.0.1", 7001), "B": ("10.0.0.2", 7002), "C": ("10.0.0.3", 7003)}
@@ -36,6 +38,8 @@ class Handler:
         self.ha = ("127.0.0.1", 9000)
         self.opened = False
         self.failing = {}          # dest name -> errno name
+        self.mask = ()             # per-send family: attempt i of this pass fails iff mask[i]
+        self.failed_dests = set()  # destinations that had a failed send since last reset
         self.sent = []             # (label, dest name) datagrams accepted
         self.attempts = []         # every send call
 
@@ -52,9 +56,11 @@ class Handler:
     def send(self, data, da):
         import socket
         d = NAME.get(da, repr(da))
+        i = len(self.attempts)
         self.attempts.append(d)
-        if d in self.failing:
-            e = getattr(errno, self.failing[d])
+        if d in self.failing or (i < len(self.mask) and self.mask[i]):
+            e = getattr(errno, self.failing.get(d) or TRANSIENT[i % len(TRANSIENT)])
+            self.failed_dests.add(d)
             raise socket.error(e, os.strerror(e))
         self.sent.append((bytes(data).decode("ascii"), d))
         return len(data)
@@ -170,6 +176,54 @@ def run_passes(kind, queue, late_from, pattern, errfn=errname):
     return (None, None, log)
 
 
+def run_attempts(kind, queue, masks):
+    """Per-send failure family: in pass p the i-th send call fails iff masks[p][i].  Oracle is stated on the
+    observations only: exactly once, per-destination order over the whole run, and a packet whose destination had
+    no failed send in a pass is delivered in that pass."""
+    from ioflo.aio.proto import packeting
+    st, h = make_stack(kind)
+    items = labels(queue)
+    for lab, d in items:
+        st.transmit(packeting.Packet(stack=st, packed=lab.encode("ascii")), HA[d])
+    pending = list(items)
+    delivered = {d: [] for d in DESTS}
+    log = []
+    ipass = 0
+    while pending:
+        h.failing = {}
+        h.mask = masks[ipass] if ipass < len(masks) else ()
+        h.sent, h.attempts, h.failed_dests = [], [], set()
+        try:
+            st.serviceTxPkts()
+        except Exception as ex:
+            return ("raises", "%s: %s" % (type(ex).__name__, ex), log)
+        got = list(h.sent)
+        log.append(dict(send_fails=list(h.mask), attempts=list(h.attempts), sent=[l for l, _ in got]))
+        labs = [l for l, _ in got]
+        pend_labs = [l for l, _ in pending]
+        if len(set(labs)) != len(labs) or any(l not in pend_labs for l in labs):
+            return ("duplicate", "pass %d delivered %r, pending was %r" % (ipass + 1, labs, pend_labs), log)
+        for l, d in got:
+            delivered[d].append(l)
+        for d in DESTS:
+            want = [l for l, dd in items if dd == d]
+            if delivered[d] != want[:len(delivered[d])]:
+                return ("reordered", "destination %s has received %r, queued order %r (pass %d sent %r after send failures %r)"
+                        % (d, delivered[d], want, ipass + 1, labs, sorted(h.failed_dests)), log)
+        for l, d in pending:
+            if d not in h.failed_dests and l not in labs:
+                return ("blocked-by-other-destination" if h.failed_dests else "not-sent",
+                        "pass %d: %s to %s was not sent although no send to %s failed (failed: %r; sent %r)"
+                        % (ipass + 1, l, d, d, sorted(h.failed_dests), labs), log)
+        pending = [(l, d) for l, d in pending if l not in labs]
+        ipass += 1
+        if ipass > len(masks) + len(items) + 3:
+            return ("never-sent", "still pending after %d passes: %r" % (ipass, pending), log)
+    if st.txPkts:
+        return ("leftover", "txPkts still holds %d packets after everything was delivered" % len(st.txPkts), log)
+    return (None, None, log)
+
+
 def run_once(kind, queue, bits):
     """serviceTxPktsOnce family: call i fails iff bits[i]. Oracle: exactly once, per-destination order."""
     from ioflo.aio.proto import packeting
@@ -242,6 +296,26 @@ def work(arg):
                 if p.evaluations % 50021 == 1:
                     p.sample(dict(stack=kind, queue=qstr(queue, late_from), failing_per_pass=[list(s) for s in pat],
                                   passes=[(x["failing"], x["sent"]) for x in log]))
+        # per-send failure family (two passes, every fail/succeed mask over the first n sends of each)
+        if n <= ATT_MAXN:
+            allmasks = [m for k in range(0, n + 1) for m in itertools.product((0, 1), repeat=k) if not k or m[-1]]
+            for m1 in allmasks:
+                for m2 in allmasks:
+                    if not m1 and m2:
+                        continue      # an empty first pass mask delivers everything
+                    p.evaluations += 1
+                    if m1:
+                        p.nontrivial(("att", queue, m1, m2))
+                    v, what, log = run_attempts(kind, queue, (m1, m2))
+                    if v is None:
+                        p.outcome("per-send-ok:passes=%d" % len(log))
+                    else:
+                        p.outcome("per-send-violation:" + v)
+                        ex = "%s queue=%s fail-per-send=%s" % (kind, qstr(queue), [list(m1), list(m2)])
+                        p.violation("serviceTxPkts|" + v, ex, what,
+                                    dict(stack=kind, queue=labels(queue), send_call_fails_per_pass=[list(m1), list(m2)],
+                                         observed_passes=log, divergence=what,
+                                         how="queue everything; in pass p the i-th double.send call raises a transient socket.error iff send_call_fails_per_pass[p][i]"))
         # serviceTxPktsOnce family
         for k in range(0, min(ONCE_CALLS, n + 2) + 1):
             for bits in itertools.product((0, 1), repeat=k):
@@ -306,15 +380,17 @@ def run():
         "a destination 'failing in a pass' fails every send attempted to it during that serviceTxPkts call with one of the errnos the stack classifies as transient",
         "the handler double stands for udping.SocketUdpNb (send(data, ha) returns the byte count or raises socket.error); no real socket is used",
         "order is only required per destination; interleaving between destinations within a pass is free",
+        "per-send failure family: a destination counts as failing in a pass iff at least one send to it failed in that pass; only observations are constrained "
+        "(exactly once, per-destination order over the whole run, packets of destinations without a failed send go out in that pass)",
         "serviceTxPktsOnce family: only exactly-once delivery and per-destination order are required (one call handles one packet, so 'not blocked' is not defined per call)",
         "queues longer than %d packets are enumerated up to renaming of the three destinations (addresses are opaque dictionary keys to the stack)" % FULLN,
         "after the enumerated passes every send succeeds; delivery must then complete within queue-length+3 further passes",
     ]
     return ck.finish(
         rule="all destination assignments of 1..%d packets over {A,B,C} (beyond length %d: one per renaming of destinations) x every split 'first k packets queued up front, rest after pass 1' x every choice of failing "
-             "subset of the used destinations for each of the first %d passes (UdpStack; GramStack up to 4 packets); plus serviceTxPktsOnce with every fail/succeed "
+             "subset of the used destinations for each of the first %d passes (UdpStack; GramStack up to 4 packets); plus (queues up to %d packets) every per-send fail/succeed mask over two passes; plus serviceTxPktsOnce with every fail/succeed "
              "pattern over the first min(%d, n+2) calls; plus each of the 9 transient errnos on three small queues; non-trivial = at least one failure injected"
-             % (MAXN, FULLN, PASSES, ONCE_CALLS),
+             % (MAXN, FULLN, PASSES, ATT_MAXN, ONCE_CALLS),
         exhaustive=True)
 
 
